@@ -1,33 +1,99 @@
-"""C02 - decoding follows the Source Map v3 wire format."""
+"""C02 - decoding follows the Source Map v3 wire format (mapping level: map.dec; document level: doc.dec)."""
 from common import *
 from mapgen import *
+import docgen as D
 
 PROP = "C02"
-CONSTS = ["B64_CHARS", "B64", "prefix_source"]
-THEOREMS = {"SmVerif.Props.C06": ["SmVerif.C06.c02_decode_eq_spec"], "SmVerif.Props.C04": ["SmVerif.C04.c04_sorted_new"]}
+CONSTS = ["B64_CHARS", "B64", "prefix_source", "RawSourceMap", "RawSection", "file <invalid>"]
+THEOREMS = {"SmVerif.Props.C06": ["SmVerif.C06.c02_decode_eq_spec"], "SmVerif.Props.C04": ["SmVerif.C04.c04_sorted_new"],
+            "SmVerif.Props.C02": ["SmVerif.C02.c02_kind_index", "SmVerif.C02.c02_kind_hermes", "SmVerif.C02.c02_kind_regular",
+                                  "SmVerif.C02.c02_null_source", "SmVerif.C02.c02_numeric_name", "SmVerif.C02.c02_debug_id_precedence",
+                                  "SmVerif.C02.c02_abs_prefixes", "SmVerif.C02.c02_source_root_join", "SmVerif.C02.c02_source_root_empty",
+                                  "SmVerif.C02.c02_doc_tokens", "SmVerif.C02.c02_doc_tokens_resolve"]}
 TRUSTED = BASE_TRUST + ["model: decode_regular's token loop (decoder.rs); specification: lean/SmVerif/Model/V3Spec.lean (independent reading: all segments located and read with the standard VLQ reader, then accumulated)",
-                        "serde_json / RawSourceMap deserialisation (JSON text to fields) is trusted and exercised"]
-ASSUMPTIONS = ["tokens sharing one generated position are compared as a multiset (the property only demands ordering by generated position)"]
-RULE = ("documents rendered from an abstract mapping model by the generator's own VLQ writer: 0-8 lines, empty lines and segments, positive and negative deltas, 1/4/5-field segments, large (2^31) deltas; "
-        "non-trivial = at least one decoded token; distinct = distinct case line")
+                        "document level: lean/SmVerif/Model/Raw.lean mirrors decode_common / decode_regular / decode_index / decode_hermes on the serde record RawSourceMap; specification lean/SmVerif/Model/DocSpec.lean `readDoc`",
+                        "serde_json / RawSourceMap deserialisation (JSON text to fields, null -> None, unknown keys ignored, key order irrelevant), debugid text parsing and strip_junk_header are trusted and exercised: "
+                        "the harness renders the JSON text (keys in the generated order, three whitespace styles, optional junk header) from the same structured description the driver reads",
+                        "the generator's own VLQ writer is cross-checked per segment against the third-party vlq crate 0.5.1 (harness) and the standard reading specVlq (driver)"]
+ASSUMPTIONS = ["tokens sharing one generated position are compared as a multiset (the property only demands ordering by generated position)",
+               "documented reading where the property is silent: sections of an index map come out ordered by offset; a source content belongs to the source with the same index; a 1-field segment carries no original position either (reported as 0:0, as the code has it since the F17 repair); "
+               "documents with version != 3, a non-string `file`, a name that is neither string nor number, or coordinates outside u32 are outside the property (spec `-`)"]
+RULE = ("mapping level: documents rendered from an abstract mapping model by the generator's own VLQ writer: 0-8 lines, empty lines and segments, positive and negative deltas, 1/4/5-field segments, large (2^31) deltas; "
+        "document level: regular / index (nested <= 3) / Hermes documents with null sources, numeric and odd names, sourceRoot variants, debug_id / debugId in every combination, sourcesContent of any length, ignoreList, "
+        "Unicode and JSON-special strings, keys in random order, optional junk header, three whitespace styles, plus a malformed stream (bad arity, out-of-range indices, foreign bytes). "
+        "non-trivial = at least one decoded token or a decode error; distinct = distinct case line")
 EXHAUSTIVE = {"quick": False, "thorough": False}
 
 
 def nontrivial(r):
-    return r["model"].startswith("ok ") and r["model"] != "ok -"
+    m = r["model"]
+    if r["case"].startswith("map.dec"):
+        return m.startswith("ok ") and m != "ok -"
+    return m.startswith("err ") or (m.startswith("ok ") and ";t=." not in m) or "t=" in m and ":" in m.split("t=", 1)[1]
 
 
 def corpus():
-    return ["map.dec 1 2 %s none" % hx("AAAA,GAAIA,GAAI,EACR,IAAIA,GAAK,EAAG,CACVC,MAAM"),
-            "map.dec 1 0 %s none" % hx("K,IAGA,J"), "map.dec 1 0 - none", "map.dec 1 0 %s none" % hx(";;;"), "map.dec 0 0 %s none" % hx(",,;,A,")]
+    out = ["map.dec 1 2 %s none" % hx("AAAA,GAAIA,GAAI,EACR,IAAIA,GAAK,EAAG,CACVC,MAAM"),
+           "map.dec 1 0 %s none" % hx("K,IAGA,J"), "map.dec 1 0 - none", "map.dec 1 0 %s none" % hx(";;;"), "map.dec 0 0 %s none" % hx(",,;,A,")]
+    sx = D.sx
+    out += [
+        # the crate's own doc example
+        "doc.dec -:0 " + " ".join(D.doc_of("ver=3", "srcs=[%s]" % sx("coolstuff.js"), "names=[%s,%s]" % (sx("x"), sx("alert")), "map=" + sx("AAAA,GAAIA,GAAI,EACR,IAAIA,GAAK,EAAG,CACVC,MAAM"))),
+        # null source, numeric name, both debug ids, root join on relative / absolute / http sources
+        "doc.dec -:1 " + " ".join(D.doc_of("ver=3", "srcs=[null,%s,%s,%s,%s]" % (sx("a.js"), sx("/abs.js"), sx("http://h/x"), sx("https:x")), "names=[n12,%s,null]" % sx("f"),
+                                            "root=" + sx("/r/"), "map=" + sx("AAAAA,CCAAC"), "did=" + sx("11111111-1111-1111-1111-111111111111"), "didn=" + sx("22222222-2222-2222-2222-222222222222"))),
+        "doc.dec -:0 " + " ".join(D.doc_of("ver=3", "srcs=[%s]" % sx("a.js"), "root=s", "map=" + sx("AAAA"), "didn=" + sx("22222222-2222-2222-2222-222222222222"))),
+        # sections win over x_facebook_sources; sections out of order; nested index
+        "doc.dec -:2 " + " ".join(["{", "fbs=null", "secs=[", "(", "off=5:0", "url=" + sx("u"), ")", "(", "off=0:0", "map"] + D.doc_of("ver=3", "srcs=[%s]" % sx("s"), "map=" + sx("AAAA"), "fbs=[m[]/414141]") +
+                                 [")", "(", "off=5:0", "map", "{", "secs=[", "]", "}", ")", "]", "}"]),
+        "doc.dec " + ")]}'\n".encode().hex() + ":0 " + " ".join(D.doc_of("ver=3", "srcs=[]", "names=[]", "map=" + sx(";;A,C;"), "amap=;;0,1;")),
+        # malformed
+        "doc.dec -:0 " + " ".join(D.doc_of("ver=3", "srcs=[%s]" % sx("a"), "map=" + sx("AA"))),
+        "doc.dec -:0 " + " ".join(D.doc_of("ver=3", "srcs=[%s]" % sx("a"), "map=" + sx("AAAA,ACAA"))),
+        "doc.dec -:0 " + " ".join(["{", "secs=[", "(", "off=0:0", "map"] + D.doc_of("ver=3", "map=" + sx("AAAA")) + [")", "]", "}"]),
+    ]
+    return out
+
+
+def malformed(rng, hist):
+    """a regular document whose mappings string carries one fault (C06 has the full fault catalogue)"""
+    items = D.rand_regular(rng, hist, wild=False)
+    out = []
+    for it in items:
+        if it.startswith("amap="):
+            continue
+        if it.startswith("map=s"):
+            text = bytes.fromhex(it[5:]).decode()
+            fault = rng.choice(["AA", "AAA", "AAAAAA", "!", "g", "A" + vlq_enc(99) + "AA", "AAAA" + vlq_enc(77), "A" + vlq_enc(-4294967296) + "AA"])
+            pos = rng.choice([";", ","]) if text else ""
+            text = text + pos + fault if rng.chance(0.5) else fault + pos + text
+            it = "map=" + D.sx(text)
+            bump(hist, "malformed_doc")
+        out.append(it)
+    doc = ["{"] + out + ["}"]
+    if rng.chance(0.3):
+        # the faulty document inside a section: the error surfaces through decode_index
+        pre = [] if rng.chance(0.5) else ["(", "off=0:0", "map"] + D.doc_of("ver=3", "srcs=[%s]" % D.sx("ok.js"), "map=" + D.sx("AAAA")) + [")"]
+        doc = ["{", "ver=3", "secs=["] + pre + ["(", "off=1:0", "map"] + doc + [")", "]", "}"]
+        bump(hist, "malformed_nested")
+    return doc
 
 
 def generate(tier, rng, hist):
     out = []
-    N = 3000 if tier == "quick" else 300000
+    N = 3000 if tier == "quick" else 150000
     for _ in range(N):
         nsrc = rng.choice([0, 1, 2, 3, 5])
         nn = rng.choice([0, 1, 3])
         lines = rand_doc(rng, nsrc, nn, max_lines=8, max_segs=10, hist=hist, big=rng.chance(0.2))
         out.append("map.dec %d %d %s none" % (nsrc, nn, hx(render(lines))))
+    M = 3500 if tier == "quick" else 150000
+    for i in range(M):
+        if i % 12 == 0:
+            out.append(D.case("doc.dec", rng, malformed(rng, hist), hist))
+        else:
+            out.append(D.case("doc.dec", rng, D.rand_doc(rng, hist, ranges=(i % 10 == 1)), hist))
+    for _ in range(300 if tier == "quick" else 10000):
+        # the raw constructor + setters (model of SourceMap::new / set_source_root; the property is silent)
+        out.append("doc.dec -:0:new " + " ".join(D.rand_new(rng, hist, wf=rng.chance(0.8))))
     return out
